@@ -57,12 +57,12 @@ def norm_ws(s):
     return re.sub(r"\s+", "", s)
 
 
-def extract(unit, canary, tag=""):
+def extract(unit, canary, tag="", template=None):
     os.makedirs(BUILD, exist_ok=True)
     sfx = "_canary" if canary else ""
     out = os.path.join(BUILD, f"{unit}{tag}{sfx}.rs")
     log = os.path.join(BUILD, f"{unit}{tag}{sfx}.log.json")
-    cmd = [VX, "extract", "--repo", REPO, "--unit", os.path.join(ROOT, "units", unit + ".vrs"), "--out", out, "--log", log]
+    cmd = [VX, "extract", "--repo", REPO, "--unit", template or os.path.join(ROOT, "units", unit + ".vrs"), "--out", out, "--log", log]
     if canary:
         cmd.append("--canary")
     rc, o, e = sh(cmd)
@@ -276,7 +276,73 @@ def scan_assumptions(gen_text):
     return sorted(set(items)), hard
 
 
+MISSING_METHOD = re.compile(r"no (?:method|function or associated item) named `(\w+)` found for (?:struct|enum|reference|mutable reference|type) `([^`]+)`")
+MISSING_FN = re.compile(r"cannot find function `(\w+)` in this scope")
+MISSING_TYPE = re.compile(r"cannot find type `(\w+)` in this scope")
+
+
+def base_type(t):
+    t = t.replace("&mut ", "").replace("&", "").strip()
+    t = re.sub(r"<.*>", "", t)
+    return t.split("::")[-1].strip()
+
+
+def auto_stub_text(res):
+    """From rustc's 'no method named X found for T' diagnostics, build contract-free stubs whose signatures are copied
+    from the crate (DESIGN 2.1 'stub closure'): a function under contract that starts calling something new is then
+    verified against a callee about which nothing is assumed, instead of being undecided."""
+    pieces, seen = [], set()
+    for d in res["diags"]:
+        if d.get("level") != "error":
+            continue
+        msg = d.get("message", "")
+        m = MISSING_METHOD.search(msg)
+        if m:
+            name, ty = m.group(1), base_type(m.group(2))
+            rc, o, e = sh([VX, "locate", "--repo", REPO, "--type", ty, "--fn", name])
+            hits = [l.split("\t") for l in o.splitlines() if l.strip()]
+            hits = [h for h in hits if h[1] == "-"] or hits
+            if len(hits) >= 1 and (ty, name) not in seen:
+                seen.add((ty, name))
+                pieces.append(f"impl {ty} {{\n    #[verifier::external_body]\n    //@fn {hits[0][0]} {ty}::{name} sigonly\n    //@end\n}}")
+            continue
+        m = MISSING_FN.search(msg)
+        if m:
+            name = m.group(1)
+            rc, o, e = sh([VX, "locate", "--repo", REPO, "--type", "", "--fn", name])
+            hits = [l.split("\t") for l in o.splitlines() if l.strip()]
+            if len(hits) == 1 and ("", name) not in seen:
+                seen.add(("", name))
+                pieces.append(f"#[verifier::external_body]\n//@fn {hits[0][0]} ::{name} sigonly\n//@end")
+            continue
+        m = MISSING_TYPE.search(msg)
+        if m and ("type", m.group(1)) not in seen:
+            seen.add(("type", m.group(1)))
+            pieces.append(f"#[verifier::external_body] pub struct {m.group(1)} {{ _p: () }}")
+    return pieces
+
+
+def with_auto_stubs(unit, pieces_all):
+    src = open(os.path.join(ROOT, "units", unit + ".vrs")).read()
+    marker = "} // verus!"
+    k = src.rfind(marker)
+    body = "\n// vx-auto: stubs for callees that appeared in a function under contract (signature from /repo, NO contract)\n" + "\n".join(pieces_all) + "\n"
+    path = os.path.join(ROOT, "units", f".auto_{unit}_{os.getpid()}.vrs")
+    with open(path, "w") as f:
+        f.write(src[:k] + body + src[k:])
+    return path
+
+
 def run_unit(unit, tier, seed):
+    try:
+        return run_unit_inner(unit, tier, seed)
+    finally:
+        p = os.path.join(ROOT, "units", f".auto_{unit}_{os.getpid()}.vrs")
+        if os.path.exists(p):
+            os.remove(p)
+
+
+def run_unit_inner(unit, tier, seed):
     t0 = time.time()
     r = {"unit": unit, "violations": [], "undecided": [], "functions": [], "assumptions": [], "rewrites": [], "stubs": [],
          "obligations": 0, "failed": 0, "canary_ok": False, "solver_ms": 0, "cmds": []}
@@ -303,6 +369,31 @@ def run_unit(unit, tier, seed):
         res = fut_main.result()
         cres = fut_can.result()
     r["cmds"].append(res["cmd"])
+    auto_pieces = []
+    rounds = 0
+    while not res["timeout"] and rounds < 4:
+        pieces = [p for p in auto_stub_text(res) if p not in auto_pieces]
+        if not pieces:
+            break
+        auto_pieces += pieces
+        rounds += 1
+        tpl = with_auto_stubs(unit, auto_pieces)
+        out, vxlog, err = extract(unit, False, template=tpl)
+        if err:
+            r["undecided"].append({"unit": unit, "reason": "extraction (after auto-stubs): " + err})
+            return r
+        cout, cvxlog, cerr = extract(unit, True, template=tpl)
+        gen_text = open(out).read()
+        gen_lines = gen_text.splitlines()
+        assumptions, hard = scan_assumptions(gen_text)
+        r["assumptions"] = assumptions
+        subprocess.run(["rm", "-rf", logdir])
+        with ThreadPoolExecutor(max_workers=2) as ex:
+            fut_main = ex.submit(run_verus, out, (), logdir)
+            fut_can = ex.submit(run_verus, cout, ("--multiple-errors", "0", "--rlimit", "1"))
+            res = fut_main.result()
+            cres = fut_can.result()
+    r["auto_stubs"] = auto_pieces
     viol, undec = classify(unit, vxlog, gen_lines, res)
     fb = breakdown(res)
     counts = air_counts(logdir)
@@ -531,6 +622,7 @@ def main():
             "canary_failed_as_expected": all(r["canary_ok"] for r in results),
             "known_findings_hit": [{"id": v["id"], "what": w} for v, w in known_hit],
             "undecided": undecided,
+            "auto_stubs_generated": [p for r in results for p in r.get("auto_stubs", [])],
             "not_decided_by_this_check": pc.get("not_decided", ""),
             "units": units,
         },
